@@ -41,7 +41,7 @@ open Nitime.Proto
 def handle (args : List String) : String :=
   match args with
   | ["welchc", fs, nfft, nov, sides, m, win, xs] =>
-    match parseFloat? fs, nfft.toNat?, nov.toNat?, m.toNat?, parseFArray? win, parseCList? xs with
+    match parseFloat? fs, nfft.toNat?, nov.toNat?, m.toNat?, parseFArray? win, parseSig? xs with
     | some Fs, some N, some nov, some M, some w, some x =>
       if M = 0 ∨ N = 0 ∨ nov ≥ N then "bad-op" else
       let n := x.size / M
